@@ -58,7 +58,8 @@ def load_known():
 
 def verify_contract(args):
     """Worker: all obligations of one contracted function. Runs in a forked process."""
-    qual, tier, seed, timeout_ms = args
+    qual, tier, seed, timeout_ms = args[:4]
+    shard, nshards = (args[4], args[5]) if len(args) > 4 else (0, 1)
     import z3
     from pyvc import engine
     from pyvc.val import Unsupported, to_python
@@ -106,7 +107,9 @@ def verify_contract(args):
         out["presat"] = str(s.check())
         slow = (0.0, None)
         pending_fail = []
-        for ob in eng.obligations:
+        for obi, ob in enumerate(eng.obligations):
+            if obi % nshards != shard:
+                continue
             status, dt, model, backend = engine.solve(ob, timeout_ms)
             if status == "unknown":
                 status, dt2, model2, backend = try_other_solvers(ob, timeout_ms, status)
@@ -159,7 +162,7 @@ def verify_contract(args):
                     fail["search_error"] = "%s: %s" % (type(e).__name__, e)
             out["failures"].append(fail)
         # canary: a deliberately wrong postcondition must be refuted
-        if c.canary and not out["failures"]:
+        if c.canary and not out["failures"] and shard == 0:
             try:
                 eng2 = engine.Engine(class_home(), timeout_ms)
                 eng2.generate(c, extra_ensures=[c.canary], drop_ensures=True)
@@ -176,7 +179,7 @@ def verify_contract(args):
     else:
         out["status"] = "bounded"
     # native sampling of the same contract (bounded stand-in / engine disagreement detector)
-    if c.native:
+    if c.native and shard == 0:
         n = (300 if tier == "quick" else 5000)
         try:
             argmap, o, tried, valid = native.search_violation(c, rseed + 2, n)
@@ -280,7 +283,12 @@ def check_property(pid, tier, seed, jobs=None, only=None):
     lemmas = [n for n, l in api.LEMMAS.items() if pid in l.props and (only is None or only in n)]
     fin = [n for n, e in api.FINITE.items() if pid in e["props"] and (only is None or only in n)]
     bnd = [n for n, e in api.BOUNDED.items() if pid in e["props"] and (only is None or only in n)]
-    tasks = [(verify_contract, (q, tier, seed, timeout_ms)) for q in quals] + \
+    tasks = []
+    for q in quals:
+        ns = getattr(api.REG[q], "shards", 1) or 1
+        for k in range(ns):
+            tasks.append((verify_contract, (q, tier, seed, timeout_ms, k, ns)))
+    tasks = tasks + \
             [(verify_lemma, (n, tier, seed, timeout_ms)) for n in lemmas] + \
             [(run_native_entry, ("finite", n, tier, seed)) for n in fin] + \
             [(run_native_entry, ("bounded", n, tier, seed)) for n in bnd]
@@ -299,7 +307,43 @@ def check_property(pid, tier, seed, jobs=None, only=None):
                 except Exception as e:
                     results.append({"function": str(a[0]), "status": "crash", "msg": "%s: %s" % (type(e).__name__, e),
                                     "obligations": {}, "failures": []})
-    return summarize(pid, tier, seed, results, time.time() - t0)
+    return summarize(pid, tier, seed, merge_shards(results), time.time() - t0)
+
+
+def merge_shards(results):
+    out = []
+    by_fn = {}
+    for r in results:
+        fn = r.get("function")
+        if fn is None or r.get("kind") in ("finite", "bounded") or fn not in by_fn:
+            if fn is not None and r.get("kind") not in ("finite", "bounded"):
+                by_fn[fn] = r
+            out.append(r)
+            continue
+        m = by_fn[fn]
+        if r.get("status") not in ("ok", None) and m.get("status") == "ok":
+            m["status"], m["msg"] = r["status"], r.get("msg", "")
+        for name, o in r.get("obligations", {}).items():
+            if name not in m["obligations"]:
+                m["obligations"][name] = o
+            else:
+                mo = m["obligations"][name]
+                mo["vcs"] += o["vcs"]
+                for b, k in o["backend"].items():
+                    mo["backend"][b] = mo["backend"].get(b, 0) + k
+                rank = {"discharged": 0, "undecided": 1, "failed": 2}
+                if rank[o["status"]] > rank[mo["status"]]:
+                    mo["status"] = o["status"]
+        seen = {f["obligation"] for f in m.get("failures", [])}
+        for f in r.get("failures", []):
+            if f["obligation"] not in seen:
+                m["failures"].append(f)
+        m["solver_s"] = m.get("solver_s", 0) + r.get("solver_s", 0)
+        if r.get("slowest") and (not m.get("slowest") or r["slowest"]["s"] > m["slowest"]["s"]):
+            m["slowest"] = r["slowest"]
+        m["wall_s"] = max(m.get("wall_s", 0) or 0, r.get("wall_s", 0) or 0)
+        m["samples"] = (m.get("samples") or []) + (r.get("samples") or [])
+    return out
 
 
 def _call(fn, a):
